@@ -247,6 +247,28 @@ def f_extra(members):
         yield "extra:slide99", m2
 
 
+def f_casetwin(members):
+    """An unreferenced extra member whose name differs from a reachable part's only in letter case (a stale copy left by another tool),
+    with other content, stored after / before the real member: member names are compared as spelled, the part reads as before."""
+    slides = sorted(n for n in members if re.match(r"^ppt/slides/slide\d+\.xml$", n))
+    media = sorted(n for n in members if re.match(r"^ppt/media/[^/]+\.[a-z]+$", n))
+    for real in slides[:1] + media[:1]:
+        head, _, last = real.rpartition("/")
+        twin = head + "/" + last[0].upper() + last[1:]
+        if twin == real or twin in members:
+            continue
+        other = members[real].replace(b"</p:sld>", b"<!-- stale copy --></p:sld>") if real in slides else members[real] + b"\x00stale"
+        after = dict(members)
+        after[twin] = other
+        yield "extra:case-twin-after:%s" % real, after
+        before = {}
+        for n, b in members.items():
+            if n == real:
+                before[twin] = other
+            before[n] = b
+        yield "extra:case-twin-before:%s" % real, before
+
+
 def rename_parts(members, mapping: dict[str, str]):
     """Consistently rename parts (absolute names): member, rels item, overrides, every relationship target."""
     m = {}
@@ -343,7 +365,7 @@ def f_refusals(members):
 
 def all_single_faults(members, known_types) -> list[tuple[str, dict]]:
     out = [("none", dict(members))]
-    for gen in (f_dangling, f_dangling2, f_delpart, f_delrels, f_nocore, f_caseflip, f_extra, f_rename_slides, f_refusals):
+    for gen in (f_dangling, f_dangling2, f_delpart, f_delrels, f_nocore, f_caseflip, f_extra, f_casetwin, f_rename_slides, f_refusals):
         out += list(gen(members))
     out += list(f_unknown_ct(members, known_types))
     return out
